@@ -41,14 +41,14 @@ impl<F: Field> Optimizer<F> {
         ops: Vec<Op<F>>,
         private_inputs: &[WitnessId],
     ) -> (Vec<Op<F>>, HashMap<WitnessId, WitnessId>) {
-        let (ops, rewrite) = Deduplicator::new().run(ops);
+        let (ops, rewrite) = Deduplicator::new()
+            .with_external_writes(private_inputs)
+            .run(ops);
         let private_inputs: Vec<WitnessId> = private_inputs
             .iter()
             .map(|id| id.resolve(&rewrite))
             .collect();
-        let ops = MulAddFusion::new(&ops)
-            .with_external_writes(&private_inputs)
-            .run(ops);
+        let ops = MulAddFusion::with_external_writes(&ops, &private_inputs).run(ops);
         (ops, rewrite)
     }
 }
